@@ -284,6 +284,9 @@ func init() {
 			for _, dom := range [][]string{nil, {".example.com"}} {
 				for _, path := range []string{"", "/app"} {
 					cfg := proxyCfg{Redis: redis, CookieDomains: dom, CookiePath: path, CookieRefresh: time.Second, InjectRequest: defaultInject(), Whitelist: []string{"allowed.example.net"}}
+					if path == "" && dom == nil {
+						cfg.Htpasswd = map[string]string{"bob": "pw"}
+					}
 					e, err := newEnv(c, cfg)
 					if err != nil {
 						c.violation("HARNESS", "env: "+err.Error(), nil)
@@ -445,6 +448,99 @@ func init() {
 									e.mr.FlushAll()
 								}
 							}
+						}
+					}
+					// sessions of the sign-in FORM (htpasswd users; they carry no creation time until saved): sign in, sign in again
+					// while the first cookie is still presented, optionally a third time from a clean tab, use, sign out —
+					// no cookie the browser ever held authenticates afterwards
+					if path == "" && dom == nil {
+						form := func(b *browser) *respView {
+							v := e.do(reqSpec{Target: e.opts.ProxyPrefix + "/sign_in", Method: "POST", Body: "username=bob&password=pw&rd=/app/x", Cookie: b.cookieHeader(),
+								Header: http.Header{"Content-Type": {"application/x-www-form-urlencoded"}}})
+							if v.raw != nil {
+								b.apply(v.raw)
+							}
+							return v
+						}
+						for _, n := range []int{1, 2, 3} {
+							b := newBrowser()
+							ok := true
+							for i := 0; i < n; i++ {
+								if v := form(b); v.Status != 302 || !hasAnySessionCookie(b, e.opts.Cookie.Name) {
+									ok = false
+								}
+								if r := e.do(reqSpec{Target: "/app/between", Cookie: b.cookieHeader()}); len(r.Hits) == 0 {
+									ok = false
+								}
+							}
+							if !ok {
+								c.violation("HARNESS", "form sign-in did not establish a session", fmt.Sprintf("%+v", cfg))
+								continue
+							}
+							v, real := e.serveCase(reqSpec{Target: e.opts.ProxyPrefix + "/sign_out", Cookie: b.cookieHeader()}, nil, "signout:form")
+							if v == nil {
+								continue
+							}
+							if v.raw != nil {
+								b.apply(v.raw)
+							}
+							c.casen(fmt.Sprintf("c11f|%v|%d", redis, n), real)
+							c.count("signout:form-logins")
+							if redis {
+								seen := map[string]bool{}
+								for _, h := range b.history {
+									if !isSessionCookieNameH(e.opts.Cookie.Name, h.Name) || seen[h.Value] {
+										continue
+									}
+									seen[h.Value] = true
+									if r2 := e.do(reqSpec{Target: "/app/replay", Cookie: h.Name + "=" + h.Value}); len(r2.Hits) > 0 {
+										c.violation("C11", "a session cookie of an earlier sign-in of the same browser (sign-in form, signed in again while it was presented) is still authenticated after sign-out",
+											map[string]interface{}{"form_sign_ins": n, "cookie": truncate(h.Value, 80), "response": real, "stored_keys_left": len(e.redisKeys())})
+										break
+									}
+									c.count("signout:form-replay")
+								}
+							}
+							if r3 := e.do(reqSpec{Target: "/app/after", Cookie: b.cookieHeader()}); len(r3.Hits) > 0 {
+								c.violation("C11", "browser still authenticated after signing out of a sign-in-form session", map[string]interface{}{"form_sign_ins": n, "redis": redis})
+							}
+							if e.mr != nil {
+								e.mr.FlushAll()
+							}
+						}
+					}
+					// a Redis server that STALLS on the deletion (no answer until the client's read timeout): the sign-out could not
+					// remove the stored session, so it is answered with an error, or the session is gone — never a success redirect
+					// while the pre-sign-out cookie still authenticates
+					if redis && path == "" && dom == nil {
+						cfgT := cfg
+						cfgT.Htpasswd = nil
+						cfgT.RedisReadTimeout = 600 * time.Millisecond
+						if et, err := newEnv(c, cfgT); err == nil {
+							for _, cmd := range []string{"DEL", "GET"} {
+								b := newBrowser()
+								if lr := et.login(b, u, "/app/home"); !lr.OK {
+									c.violation("HARNESS", "login failed (stall env)", nil)
+									continue
+								}
+								before := b.cookieHeader()
+								et.redisFault = map[string]string{cmd: "hang"}
+								v := et.do(reqSpec{Target: et.opts.ProxyPrefix + "/sign_out", Cookie: before})
+								et.redisFault = nil
+								r2 := et.do(reqSpec{Target: "/app/replay", Cookie: before})
+								c.casen("c11|stall|"+cmd, fmt.Sprint(v.Status))
+								c.count("signout:redis-stall")
+								if v.Status == 302 && len(r2.Hits) > 0 {
+									c.violation("C11", "sign-out answered with the success redirect although Redis stalled on "+cmd+" and the stored session was not removed: the pre-sign-out cookie still authenticates",
+										map[string]interface{}{"stalled_command": cmd, "status": v.Status, "location": v.Location, "read_timeout": cfgT.RedisReadTimeout.String()})
+									c.violation("C13", "a successful sign-out is reported while the stored session is still loadable (Redis timed out on "+cmd+")",
+										map[string]interface{}{"stalled_command": cmd, "status": v.Status})
+								}
+								et.mr.FlushAll()
+							}
+							et.close()
+						} else {
+							c.violation("HARNESS", "env: "+err.Error(), nil)
 						}
 					}
 					// sign-out request that itself triggers a refresh which changes the cookie layout (grow / shrink / same)
